@@ -37,11 +37,11 @@ type mexCtx struct {
 	kind int
 }
 
-func newMexCtx() *mexCtx                                  { return &mexCtx{done: make(chan struct{})} }
-func (c *mexCtx) Deadline() (time.Time, bool)             { return time.Time{}, false }
-func (c *mexCtx) Done() <-chan struct{}                   { return c.done }
-func (c *mexCtx) Value(key interface{}) interface{}       { return nil }
-func (c *mexCtx) Err() error                              { c.mu.Lock(); defer c.mu.Unlock(); return c.err }
+func newMexCtx() *mexCtx                            { return &mexCtx{done: make(chan struct{})} }
+func (c *mexCtx) Deadline() (time.Time, bool)       { return time.Time{}, false }
+func (c *mexCtx) Done() <-chan struct{}             { return c.done }
+func (c *mexCtx) Value(key interface{}) interface{} { return nil }
+func (c *mexCtx) Err() error                        { c.mu.Lock(); defer c.mu.Unlock(); return c.err }
 func (c *mexCtx) fire(kind int) {
 	c.mu.Lock()
 	defer c.mu.Unlock()
